@@ -244,8 +244,33 @@ def gen_component(rng, depth=0, name=None):
     return lines
 
 
+def gen_vtimezone(rng):
+    """a well-formed VTIMEZONE under an id no provider knows and no earlier text of this process has used (so that this
+    text is the first sighting: the provider builds the zone while the component is being parsed), with X- properties on
+    the VTIMEZONE and inside its observances, and an event that uses the id"""
+    tzid = "Verif-%d/Zone" % rng.randrange(10 ** 9)
+    x = lambda: (["X-NOTE-%d:%s" % (rng.randrange(3), rng.choice(["winter", "a;b", "x" * 70]))] if rng.random() < 0.5 else [])  # noqa: E731
+    std = ["BEGIN:STANDARD", "DTSTART:19701025T030000", "TZOFFSETFROM:+0200", "TZOFFSETTO:+0100", "TZNAME:VST"] + x() + \
+          (["RRULE:FREQ=YEARLY;BYMONTH=10;BYDAY=-1SU"] if rng.random() < 0.7 else ["RDATE:19711031T030000,19721029T030000"]) + \
+          ["END:STANDARD"]
+    dst = ["BEGIN:DAYLIGHT", "DTSTART:19700329T020000", "TZOFFSETFROM:+0100", "TZOFFSETTO:+0200", "TZNAME:VDT"] + x() + \
+          ["RRULE:FREQ=YEARLY;BYMONTH=3;BYDAY=-1SU", "END:DAYLIGHT"]
+    obs = [std, dst] if rng.random() < 0.8 else [std]
+    if rng.random() < 0.5:
+        obs.reverse()
+    tz = ["BEGIN:VTIMEZONE", "TZID:" + tzid] + (["X-LIC-LOCATION:Nowhere"] if rng.random() < 0.5 else []) + x()
+    for o in obs:
+        tz += o
+    tz.append("END:VTIMEZONE")
+    ev = ["BEGIN:VEVENT", "UID:tz-%d" % rng.randrange(1000), "DTSTART;TZID=%s:2021%02d15T120000" % (tzid, rng.randrange(1, 13)),
+          "RDATE;TZID=%s:20210701T120000,20211201T120000" % tzid, "END:VEVENT"]
+    return (tz + ev) if rng.random() < 0.8 else (ev + tz)
+
+
 def gen_calendar(rng):
     lines = ["BEGIN:VCALENDAR", "VERSION:2.0", "PRODID:-//verif//EN"]
+    if rng.random() < 0.3:
+        lines += gen_vtimezone(rng)
     for _ in range(rng.randrange(0, 4)):
         lines += gen_component(rng, 1)
     lines.append("END:VCALENDAR")
